@@ -9,8 +9,8 @@ SpotsB   == {1, 3}
 SpotsNeg == {-1, 2}
 PayA     == {-1, 0, 2}
 PayB     == {0, 2}
-Cost1    == {<<>>, <<0>>, <<1>>, <<2>>}
-Cost2    == {<<>>, <<0, 0>>, <<1, 2>>, <<2, 0>>}
+Cost1    == {<<>>, <<0>>, <<1>>, <<2>>, <<-1>>}
+Cost2    == {<<>>, <<0, 0>>, <<1, 2>>, <<2, 0>>, <<-1, 0>>, <<0, -2>>}
 Cost2s   == {<<>>, <<1, 2>>}
 Cost3    == {<<>>, <<1, 0, 2>>}
 =============================================================================
